@@ -158,9 +158,11 @@ def coq_make(timeout=3000, targets=None):
 
 
 def parse_assumptions(output):
-    """split coqc output into Print Assumptions blocks, in order"""
+    """split coqc output into Print Assumptions blocks, in order.  An entry is `name : type` on one line or, when the type is long, `name`
+    alone followed by an indented line starting with `:` (continuation lines of a type are indented too)."""
     blocks, cur = [], None
-    for line in output.splitlines():
+    lines = output.splitlines()
+    for k, line in enumerate(lines):
         if line.startswith("Closed under the global context"):
             if cur is not None:
                 blocks.append(cur)
@@ -169,10 +171,12 @@ def parse_assumptions(output):
             if cur is not None:
                 blocks.append(cur)
             cur = []
-        elif cur is not None:
+        elif cur is not None and not line.startswith(" "):
             m = re.match(r"^(\S+)\s*:", line)
-            if m and not line.startswith(" "):
+            if m:
                 cur.append(m.group(1))
+            elif re.match(r"^\S+\s*$", line) and k + 1 < len(lines) and re.match(r"^\s+:", lines[k + 1]):
+                cur.append(line.strip())
     if cur is not None:
         blocks.append(cur)
     return blocks
